@@ -18,6 +18,7 @@ import sys
 import shutil
 
 from lib import common, gen
+from lib import hist
 from lib.hist import KVStore, SQLStore
 from lib.kvimpl import model_event
 
@@ -129,7 +130,16 @@ def enumerate_faults(report, drv, rng, backend, evs, tag, max_points):
                     store.add(e)
                 exc_name = rng.choice(["mapfull", "generic", "runtime"])
                 if backend == "kv":
-                    res, fired, _ = kv_fault_run(store, ev, k, exc_name)
+                    try:
+                        res, fired, _ = kv_fault_run(store, ev, k, exc_name)
+                    except hist.WriterDied as ex:
+                        report.property_failure(
+                            "kv: a fault at mutation %d of event %d (kind %d) killed the writer loop (%s): every later event is "
+                            "acknowledged but never written" % (k, i, ev["kind"], ex),
+                            {"backend": "kv", "events": evs, "index": i, "fault_at": k, "exc": exc_name}, None)
+                        store.close()
+                        store = KVStore()
+                        continue
                 else:
                     sqlf.arm(k)
                     res = store.add(ev)
@@ -279,6 +289,69 @@ def kill_case(report, rng, backend, evs, k, tag):
         shutil.rmtree(base, ignore_errors=True)
 
 
+def burst_fault_case(report, rng, evs, tag):
+    """LMDB: several events are acknowledged and queued before the writer gets to run (a burst, or the writer waiting for the
+    write lock); the engine fails at the k-th mutation of the whole batch.  Whatever the writer does with its queue, the fault
+    may cost exactly the event whose transaction it hit: the store afterwards is the state of the history without one event, or
+    of the whole history — never less, never a mixture."""
+    store = KVStore()
+    lmdb = store.kv.lmdb
+    try:
+        # how many mutations does the whole batch take?
+        lmdb.MUTATION_LOG = []
+        for e in evs:
+            store.submit(e)
+        store.quiesce()
+        nmut = len(lmdb.MUTATION_LOG)
+        lmdb.MUTATION_LOG = None
+        full = store.dump()
+        # the states of the history without one of its events
+        without = {}
+        for j in range(len(evs)):
+            ref = KVStore()
+            try:
+                for e in evs[:j] + evs[j + 1:]:
+                    ref.add(e)
+                without[j] = ref.dump()
+            finally:
+                ref.close()
+        ks = sorted(rng.sample(range(1, nmut + 1), min(nmut, 5)))
+        for k in ks:
+            store.reset()
+            lmdb = store.kv.lmdb
+            for e in evs:
+                store.submit(e)
+            exc_name = rng.choice(["mapfull", "generic", "runtime"])
+            exc = {"mapfull": lmdb.MapFullError, "generic": lmdb.Error, "runtime": RuntimeError}[exc_name]
+            lmdb.FAULT = {"countdown": k, "exc": exc}
+            payload = {"backend": "kv", "case": "burst-fault", "events": evs, "fault_at": k, "exc": exc_name}
+            try:
+                store.quiesce()
+                died = None
+            except hist.WriterDied as ex:
+                died = ex
+            finally:
+                lmdb.FAULT = None
+            if died is not None:
+                report.property_failure("kv: a fault at mutation %d of a burst of %d queued events killed the writer loop (%s)"
+                                        % (k, len(evs), died), payload, None)
+                store.close()
+                store = KVStore()
+                continue
+            got = store.dump()
+            if got != full and got not in without.values():
+                lost = len(set(full) - set(got))
+                report.property_failure(
+                    "kv: a fault at mutation %d of a burst of %d acknowledged events left a store that is neither the whole history "
+                    "nor the history without one event (%d keys of the full state are missing, %d are extra)"
+                    % (k, len(evs), lost, len(set(got) - set(full))), payload, None)
+            report.case(("kv", "burst-fault", tag, k), nontrivial=True, sample={"backend": "kv", "case": "burst-fault", "events": len(evs), "k": k})
+            report.count("burst_fault_points_kv")
+    finally:
+        lmdb.FAULT, lmdb.MUTATION_LOG = None, None
+        store.close()
+
+
 def begin_fault_case(report, rng, evs, tag, after_missing_delete):
     """LMDB: the engine refuses to *begin* the write transaction of a task (map full, I/O error, too many readers) — on the
     very first task of a freshly started writer, or right after a deletion that found nothing.  That task is lost as a whole;
@@ -335,7 +408,7 @@ def run(report, tier, seed):
         "lmdb.Error / RuntimeError below kv.py; RuntimeError at the k-th SQL statement) — state must equal 'before', later "
         "events must give the state of the history without the event; LMDB also: the engine refuses to begin the write transaction of "
         "the first task of a fresh writer (or of the task after a deletion that found nothing) — later "
-        "events must give the state of the history without the event; process kills (os._exit) at sampled mutation points on "
+        "events must give the state of the history without the event; LMDB bursts: 2-5 events acknowledged and queued before the writer runs, a fault at a sampled mutation of the whole batch must cost at most the one event it hit; process kills (os._exit) at sampled mutation points on "
         "file-backed LMDB and SQLite, store reopened by the parent; non-trivial = every fault point")
     report.assumptions += ["engine atomicity/durability (LMDB, SQLite WAL) is trusted: torn pages and fsync behaviour are not reachable",
                            "the LMDB writer loop body runs synchronously in the harness thread"]
@@ -349,6 +422,8 @@ def run(report, tier, seed):
         for hidx in range(4 if tier == "quick" else 60):
             evs = gen_history(rng, rng.randint(2, 5))
             begin_fault_case(report, rng, evs, hidx, after_missing_delete=bool(hidx % 2))
+        for hidx in range(3 if tier == "quick" else 40):
+            burst_fault_case(report, rng, gen_history(rng, rng.randint(2, 5)), hidx)
         kills = 3 if tier == "quick" else 40
         for backend in ("kv", "sql"):
             done = 0
